@@ -676,10 +676,167 @@ func c12Aspects(yield func(c12Case) bool) {
 	}
 }
 
+// --- the own RA follows the system ----------------------------------------------
+
+// c12Live: an advertiser whose configuration has a ::/64 wildcard prefix stanza
+// receives the same foreign RA several times while the interface's address
+// list (and with it the RA the advertiser itself sends) changes in between.
+// Every reception must be judged against the own RA of that moment.
+type c12Live struct {
+	Ours   vRA        `json:"ours"` // static part of the own RA
+	Wild   vOpt       `json:"wildcard_prefix"`
+	Nets   [][]string `json:"address_networks"` // per step: the /64 networks the interface has addresses in
+	Theirs vRA        `json:"theirs"`
+}
+
+func c12LiveProp(k *verifkit.Kit) func(c c12Live) error {
+	return func(c c12Live) error {
+		changes := 0
+		for i := 1; i < len(c.Nets); i++ {
+			if fmt.Sprint(c.Nets[i]) != fmt.Sprint(c.Nets[i-1]) {
+				changes++
+			}
+		}
+		k.Record(c, changes >= 1, fmt.Sprintf("live:address-changes=%d", min(changes, 3)))
+		logs := &lockedBuf{}
+		mem := metricslite.NewMemory()
+		mm := NewMetrics(mem, "verif", time.Time{}, system.TestState{Forwarding: true}, nil)
+		cctx := NewContext(log.New(logs, "", 0), mm, system.TestState{Forwarding: true})
+		cfg := c.Ours.iface("eth0")
+		var cur []string
+		wild := &plugin.Prefix{Auto: true, Prefix: netip.MustParsePrefix("::/64"), OnLink: c.Wild.OnLink, Autonomous: c.Wild.Auto,
+			ValidLifetime: time.Duration(c.Wild.ValidS) * time.Second, PreferredLifetime: time.Duration(c.Wild.PrefS) * time.Second,
+			TimeNow: time.Now, Addrs: func() ([]system.IP, error) {
+				var out []system.IP
+				for _, n := range cur {
+					p := netip.MustParsePrefix(n)
+					out = append(out, system.IP{Address: netip.PrefixFrom(p.Addr().Next(), 64)})
+				}
+				return out, nil
+			}}
+		cfg.Plugins = append([]plugin.Plugin{wild}, cfg.Plugins...)
+		a := NewAdvertiser(cctx, cfg, nil, nil, func() bool { return false })
+		hooks := 0
+		a.OnInconsistentRA = func(o, t *ndp.RouterAdvertisement) { hooks++ }
+		b, err := ndp.MarshalMessage(c.Theirs.ndp())
+		if err != nil {
+			return fmt.Errorf("verif: generated RA does not encode: %v", err)
+		}
+		m, err := ndp.ParseMessage(b)
+		if err != nil {
+			return fmt.Errorf("verif: generated RA does not decode: %v", err)
+		}
+		prev := map[string]float64{}
+		prevLogs, prevHooks := 0, 0
+		for step, nets := range c.Nets {
+			cur = nets
+			// the own RA of this moment: the wildcard's networks in ascending order, then the static options
+			ours := c.Ours
+			ours.Opts = nil
+			sorted := append([]string(nil), nets...)
+			sort.Slice(sorted, func(i, j int) bool {
+				return netip.MustParsePrefix(sorted[i]).Addr().Less(netip.MustParsePrefix(sorted[j]).Addr())
+			})
+			seen := map[string]bool{}
+			for _, n := range sorted {
+				if !seen[n] {
+					seen[n] = true
+					ours.Opts = append(ours.Opts, vOpt{Kind: "prefix", Prefix: n, OnLink: c.Wild.OnLink, Auto: c.Wild.Auto, ValidS: c.Wild.ValidS, PrefS: c.Wild.PrefS})
+				}
+			}
+			ours.Opts = append(ours.Opts, c.Ours.Opts...)
+			want, unspec := c12Expected(ours, c.Theirs)
+			drop := map[string]bool{}
+			for _, u := range unspec {
+				drop[u] = true
+			}
+			if _, err := a.handle(m, netip.MustParseAddr("fe80::2")); err != nil {
+				return verifkit.Violf("C12/handle-error", "step %d: handle returned %v", step, err)
+			}
+			series, _ := mm.Series()
+			var counted []c12Label
+			for key, v := range series[advInconsistencies].Samples {
+				var l c12Label
+				for _, kv := range strings.Split(key, ",") {
+					switch {
+					case strings.HasPrefix(kv, "details="):
+						l.Details = strings.TrimPrefix(kv, "details=")
+					case strings.HasPrefix(kv, "field="):
+						l.Field = strings.TrimPrefix(kv, "field=")
+					}
+				}
+				for i := 0; i < int(v-prev[key]); i++ {
+					counted = append(counted, l)
+				}
+				prev[key] = v
+			}
+			if gotS, wantS := c12Multiset(counted, drop), c12Multiset(want, drop); gotS != wantS {
+				return verifkit.Violf("C12/live/"+c12Diff(wantS, gotS), "reception %d with addresses in %v: want {%s} got {%s} (own RA of this moment: %s)", step, nets, wantS, gotS, raStr(ours.ndp()))
+			}
+			if len(unspec) == 0 && ((hooks-prevHooks > 0) != (len(want) > 0) || hooks-prevHooks > 1) {
+				return verifkit.Violf("C12/live/hook", "reception %d: hook fired %d times for %d expected inconsistencies", step, hooks-prevHooks, len(want))
+			}
+			prevHooks = hooks
+			_ = prevLogs
+		}
+		return nil
+	}
+}
+
+func c12GenLive(t *rapid.T) c12Live {
+	nets := []string{"2001:db8:1::/64", "2001:db8:2::/64", "fd00::/64", "2001:db8:3::/64"}
+	c := c12Live{Ours: c12GenRA(t, false, c12Prefixes), Wild: vOpt{Kind: "prefix", OnLink: rapid.Bool().Draw(t, "wl"), Auto: rapid.Bool().Draw(t, "wa"),
+		ValidS: rapid.SampledFrom([]int64{600, 1800, 86400}).Draw(t, "wvalid")}}
+	c.Wild.PrefS = rapid.SampledFrom([]int64{300, 600, c.Wild.ValidS}).Draw(t, "wpref")
+	if c.Wild.PrefS > c.Wild.ValidS {
+		c.Wild.PrefS = c.Wild.ValidS
+	}
+	// no static prefix stanza of ours may coincide with a network the wildcard can expand to
+	var opts []vOpt
+	for _, o := range c.Ours.Opts {
+		if o.Kind != "prefix" {
+			opts = append(opts, o)
+		}
+	}
+	c.Ours.Opts = opts
+	for i, n := 0, rapid.IntRange(2, 4).Draw(t, "steps"); i < n; i++ {
+		var step []string
+		for _, x := range nets {
+			if rapid.Bool().Draw(t, "has") {
+				step = append(step, x)
+			}
+		}
+		c.Nets = append(c.Nets, step)
+	}
+	// the other router advertises some of these networks, with its own lifetimes
+	c.Theirs = c12GenRA(t, true, c12Prefixes)
+	var topts []vOpt
+	for _, o := range c.Theirs.Opts {
+		if o.Kind != "prefix" {
+			topts = append(topts, o)
+		}
+	}
+	for _, x := range nets {
+		if rapid.Bool().Draw(t, "theirs-has") {
+			v := rapid.SampledFrom([]int64{600, 1800, 86400}).Draw(t, "tvalid")
+			topts = append(topts, vOpt{Kind: "prefix", Prefix: x, OnLink: true, Auto: true, ValidS: v, PrefS: rapid.SampledFrom([]int64{300, 600, v}).Draw(t, "tpref")})
+		}
+	}
+	c.Theirs.Opts = topts
+	return c
+}
+
 func TestVerif_C12(t *testing.T) {
 	k := verifkit.Start(t, "C12")
 	prop := c12Prop(k)
-	k.Regress(t, func(sub string, raw json.RawMessage) error { return verifkit.Decode(raw, prop) })
+	live := c12LiveProp(k)
+	k.Regress(t, func(sub string, raw json.RawMessage) error {
+		if strings.HasPrefix(sub, "live") {
+			return verifkit.Decode(raw, live)
+		}
+		return verifkit.Decode(raw, prop)
+	})
 	verifkit.Enumerate(k, t, "aspect-classes-singles-and-pairs", true, c12Aspects, prop)
 	verifkit.Rapid(k, t, "random-ra-pairs", k.N(6000, 2000000), c12Gen, prop)
+	verifkit.Rapid(k, t, "live-own-ra-follows-the-system", k.N(4000, 400000), c12GenLive, live)
 }
